@@ -57,7 +57,7 @@ claim("C06", "proof",
       "space or MaxMsg is dropped whole, lookahead reads leave `read` alone and a normal read resynchronises the lookahead, hasNext "
       "false iff the view is empty; the copy-before-publish / copy-before-release ORDER (memcpy wrapper asserting the index still has "
       "its entry value); three stale-snapshot lemmas making each side's contract stable under the other side's actions. Content clauses "
-      "(view' = view||data, dst = view prefix) are bounded by ring size (64 quick / 1024 thorough). The composition to 'lossless FIFO "
+      "(view' = view||data, dst = view prefix) are bounded by ring size (16 quick / 256 thorough; plus 8 in the order_small variants). The composition to 'lossless FIFO "
       "under every interleaving' is a PAPER STEP (single producer/consumer + seq_cst atomics), supported by a must-fire static fact "
       "that the three indices are std::atomic with no weaker memory order named.",
       "Interleavings are not enumerated and atomicity is dropped by the extraction (std::atomic<off_t> -> off_t): this is a proof of "
